@@ -4,7 +4,6 @@
 */
 #include "DDP/utf8/utf8.h"
 #include <string.h>
-#include <uchar.h>
 
 // check if the first unicode character in c is a single-byte character
 bool utf8_is_single_byte(char *c) {
@@ -125,29 +124,67 @@ size_t utf8_num_bytes_char(uint32_t c) {
 	return -1;
 }
 
-static mbstate_t state;
-
 // decodes the unicode character c into s
 // s must be at least 5 chars long and will be null-terminated by the functions
 // returns the number of bytes in c
 // returns -1 if c is not a valid utf8 character
+//
+// the conversion is done by hand and not with c32rtomb, because that depends on the locale
+// of the process and fails for every non-ascii character if no utf8 locale could be set
 size_t utf8_char_to_string(char *s, int32_t c) {
-	size_t num_bytes = c32rtomb(s, c, &state);
-	if (num_bytes != (size_t)-1) {
-		s[num_bytes] = '\0';
+	uint32_t ch = (uint32_t)c;
+	size_t num_bytes = utf8_num_bytes_char(ch);
+	switch (num_bytes) {
+	case 1:
+		s[0] = (char)ch;
+		break;
+	case 2:
+		s[0] = (char)(0xC0 | (ch >> 6));
+		s[1] = (char)(0x80 | (ch & 0x3F));
+		break;
+	case 3:
+		s[0] = (char)(0xE0 | (ch >> 12));
+		s[1] = (char)(0x80 | ((ch >> 6) & 0x3F));
+		s[2] = (char)(0x80 | (ch & 0x3F));
+		break;
+	case 4:
+		s[0] = (char)(0xF0 | (ch >> 18));
+		s[1] = (char)(0x80 | ((ch >> 12) & 0x3F));
+		s[2] = (char)(0x80 | ((ch >> 6) & 0x3F));
+		s[3] = (char)(0x80 | (ch & 0x3F));
+		break;
+	default:
+		return (size_t)-1;
 	}
+	s[num_bytes] = '\0';
 	return num_bytes;
 }
 
 // decode the first codepoint in str into out
 // str must be null-terminated
 // returns the number of bytes encoded into out or -1 if str was invalid utf8
+//
+// done by hand for the same reason as utf8_char_to_string
 size_t utf8_string_to_char(char *str, uint32_t *out) {
 	if (str == NULL) {
 		return -1;
 	}
 
 	size_t n = utf8_num_bytes(str);
-	mbrtoc32(out, str, n, &state);
+	unsigned char *u = (unsigned char *)str;
+	switch (n) {
+	case 1:
+		*out = u[0];
+		break;
+	case 2:
+		*out = ((uint32_t)(u[0] & 0x1F) << 6) | (u[1] & 0x3F);
+		break;
+	case 3:
+		*out = ((uint32_t)(u[0] & 0x0F) << 12) | ((uint32_t)(u[1] & 0x3F) << 6) | (u[2] & 0x3F);
+		break;
+	case 4:
+		*out = ((uint32_t)(u[0] & 0x07) << 18) | ((uint32_t)(u[1] & 0x3F) << 12) | ((uint32_t)(u[2] & 0x3F) << 6) | (u[3] & 0x3F);
+		break;
+	}
 	return n;
 }
